@@ -306,14 +306,26 @@ def ev32(t):
     raise ValueError(op)
 
 
-def txt32(t):
+def txt32(t, top=True):
+    """minimal parentheses: a left operand of the same precedence level is written bare (left-to-right chains), as is a
+    multiplicative operand of an additive operator; everything else is parenthesised"""
     if not isinstance(t, tuple):
         return t
-    op, a = t[0], [txt32(x) for x in t[1:]]
+    op = t[0]
     if op in "+-*/%":
-        return f"({a[0]} {op} {a[1]})"
+        lvl = lambda x: (1 if x[0] in "+-" else 2) if isinstance(x, tuple) and x[0] in "+-*/%" else 3
+        me = 1 if op in "+-" else 2
+        l, r = txt32(t[1], False), txt32(t[2], False)
+        if lvl(t[1]) < me:
+            l = f"({l})"
+        if lvl(t[2]) <= me:
+            r = f"({r})"
+        if isinstance(t[2], str) and t[2].startswith("-"):
+            r = f"({r})"
+        return f"{l} {op} {r}"
+    a = [txt32(x, True) for x in t[1:]]
     if op == "neg":
-        return f"(-{a[0]})"
+        return f"(-({a[0]}))"
     return f"{op}({', '.join(a)})"
 
 
